@@ -82,7 +82,7 @@ def run_case(case):
         ctx = zoo.gen_context(b, ctxk, n + 2, case["inp"]["seed"]) if ctxk is not None else None
         target = case["target"]
         flat_out = len(b.out_shape) == 1
-        if target in ("log_prob", "noise") and not flat_out:
+        if target in ("log_prob", "noise") and (not flat_out or len(b.in_shape) != 1):
             target = "forward"
         if target == "inverse" and (not b.invertible or b.inv_via_forward or not case["precise"]):
             target = "forward"   # float32 inverses amplify BLAS-level noise by the inverse's slope: only float64 is decisive
